@@ -25,13 +25,13 @@ type finding struct {
 }
 
 type kqOpts struct {
-	Steps      int
-	Symlinks   bool // user watches through symlinks
+	Steps         int
+	Symlinks      bool // user watches through symlinks
 	EntrySymlinks bool // also symlinks as ENTRIES of watched directories (their per-entry watch follows the link: only descriptor accounting is meaningful)
-	Fifos      bool
-	Dangling   bool // a dangling symlink inside a watched dir
-	Burst      int  // >1: quiesce only every Burst steps (timing-independent assertions only)
-	CloseEarly bool // Close at a PRNG point instead of after removing everything
+	Fifos         bool
+	Dangling      bool // a dangling symlink inside a watched dir
+	Burst         int  // >1: quiesce only every Burst steps (timing-independent assertions only)
+	CloseEarly    bool // Close at a PRNG point instead of after removing everything
 }
 
 type kqReport struct {
@@ -75,7 +75,7 @@ func kqHistory(rng *rand.Rand, o kqOpts) (rep kqReport) {
 			os.Mkdir(filepath.Join(d, "c"), 0o755)
 		}
 	}
-	everFifo := map[string]bool{} // real paths that have been a named pipe at some point of the history
+	everFifo := map[string]bool{}        // real paths that have been a named pipe at some point of the history
 	everUnwatchable := map[string]bool{} // event names of entries the backend cannot open (pipes, dangling symlinks)
 	if o.Fifos && rng.Intn(2) == 0 {
 		syscall.Mkfifo(filepath.Join(d1, "fifo0"), 0o644)
